@@ -4,7 +4,7 @@ import z3
 
 from jvc.lib import LIB as _L, model, FINITE
 from jvc.symexec import Contract, b_and, q_forall, to_z3
-from jvc.values import Arr, NameRef, Obj, Opaque, PyList, Unsupported, fresh_arr, fresh_int, fresh_name, fresh_real
+from jvc.values import Arr, NameRef, Obj, Opaque, PyList, Unsupported, fresh_arr, fresh_fn, fresh_int, fresh_name, fresh_real
 
 from . import astromodel as A
 from . import common  # noqa: F401  (spec functions src_idx, ...)
@@ -195,3 +195,150 @@ CALLEES = {D + "t": t_prop, "RVData.t": t_prop}
 ASSUMPTIONS = ["astropy: Time(x).tcb.mjd is elementwise pure (identity on TCB-MJD inputs); Quantity indexing keeps the unit; u.quantity_input only rejects wrong units",
                "numpy: boolean-mask indexing = gather at where(mask); argsort is a sorting permutation (ties in any order); isfinite is elementwise"]
 NOT_DECIDED = ["Time inputs in other scales/formats (conversion to TCB MJD is astropy's)", "np.linalg.inv for covariance ivar"]
+
+
+# ---- copy() and slicing: the constructor call seen through __init__'s own contract (proved above) -------------------------------------
+def _res_ctor_full(ex, path, bound, node):
+    """RVData(t=Time, rv=Quantity, rv_err=Quantity[, t_ref]) as a callee: a fresh object satisfying the postcondition proved for __init__ on finite
+    input (the only call sites here pass the columns of an already built object): rows are the input rows under a sorting bijection `pi`."""
+    from jvc.symexec import arr_index
+    t, rv, err = bound["t"], bound["rv"], bound["rv_err"]
+    tr = bound.get("t_ref")
+    tv = t.fields["mjd"]
+    n = tv.shape[0]
+    pi = fresh_fn("pi", z3.IntSort(), z3.IntSort())
+    inv = fresh_fn("pi_inv", z3.IntSort(), z3.IntSort())
+    piA = Arr([n], lambda k: pi(to_z3(k)), "int", "pi")
+    piA.perm_inv = inv
+    piA.inverse = lambda i: inv(to_z3(i))
+    t_new = arr_index(tv, (piA,))
+    rv_new = arr_index(rv.fields["value"], (piA,))
+    ev = err.fields["value"]
+    err_new = arr_index(ev, (piA,)) if ev.ndim == 1 else Arr([n, n], lambda r, c: ev.at(pi(to_z3(r)), pi(to_z3(c))), "real", "cov_new")
+    k = z3.Int(fresh_name("k"))
+    i = z3.Int(fresh_name("i"))
+    path.assume(q_forall([k], b_and(0 <= k, k < n), b_and(0 <= pi(k), pi(k) < n, inv(pi(k)) == k), pats=[pi(k)]),
+                q_forall([i], b_and(0 <= i, i < n), b_and(0 <= inv(i), inv(i) < n, pi(inv(i)) == i), pats=[inv(i)]),
+                q_forall([k], b_and(0 <= k, k < n - 1), tv.at(pi(k)) <= tv.at(pi(k + 1)), pats=[pi(k)]))
+    if tr is None:
+        tref = fresh_real("t_ref_default")
+        j = z3.Int(fresh_name("j"))
+        path.assume(z3.Implies(n >= 1, z3.And(q_forall([k], b_and(0 <= k, k < n), tref <= tv.at(k), pats=[tv.at(k)]), tref == tv.at(pi(0)))))
+        tref_obj = A.time_obj(tref)
+    elif tr is False:
+        tref, tref_obj = z3.RealVal(0), None
+    else:
+        tref, tref_obj = tr.fields["tcb"].fields["mjd"], tr
+    o = Obj("RVData", {"_t_bmjd": t_new, "t": A.time_obj(t_new), "rv": A.quantity(rv_new, rv.fields["unit"]), "rv_err": A.quantity(err_new, err.fields["unit"]),
+                       "_has_cov": ev.ndim == 2, "__len__": n, "cls_name": "RVData", "_t_ref_bmjd": tref, "t_ref": tref_obj, "pi": piA,
+                       "__qualclass__": "thejoker.data.RVData"})
+    return o
+
+
+ctor_full = Contract("thejoker.data.RVData.__init__", PROPERTY, ensures={}, result=_res_ctor_full)
+
+
+def built(kind, tref_kind):
+    """an RVData object as __init__ leaves it: time-ordered rows, a reference epoch (given in any time scale, or disabled)"""
+    def build(ex, path, name):
+        n = z3.Int("n_obs")
+        path.assume(n >= 1)
+        t = fresh_arr("t", 1, "real", [n])
+        u_ = A.sym_unit("rv_unit", SPEED)
+        path.assume(*u_.sym_facts)
+        k = z3.Int(fresh_name("k"))
+        path.assume(q_forall([k], b_and(0 <= k, k < n - 1), t.at(k) <= t.at(k + 1), pats=[t.at(k)]))
+        if kind == "1d":
+            err = A.quantity(fresh_arr("err", 1, "real", [n]), u_)
+        else:
+            u2 = A.sym_unit("cov_unit", SPEED2)
+            path.assume(*u2.sym_facts)
+            err = A.quantity(fresh_arr("cov", 2, "real", [n, n]), u2)
+        if tref_kind == "Time":
+            tr = A.time_obj(z3.Real("t_ref_own_scale"), tcb_offset=z3.Real("t_ref_tcb_minus_own_scale"))
+            trn = tr.fields["tcb"].fields["mjd"]
+        else:
+            tr, trn = None, z3.RealVal(0)
+        return Obj("RVData", {"_t_bmjd": t, "rv": A.quantity(fresh_arr("rv", 1, "real", [n]), u_), "rv_err": err, "_has_cov": kind == "cov",
+                              "t_ref": tr, "_t_ref_bmjd": trn, "__len__": n, "__qualclass__": "thejoker.data.RVData"}, ident="self")
+    return build
+
+
+SAME = {
+    "a-bijection-of-the-rows": "all(0 <= result.pi[r] and result.pi[r] < len(self) and inv_(result.pi, result.pi[r]) == r for r in range(len(self)))",
+    "time-velocity-paired-as-in-the-source": "len(result) == len(self) and all(result._t_bmjd[r] == self._t_bmjd[result.pi[r]] and "
+                                             "result.rv.value[r] == self.rv.value[result.pi[r]] for r in range(len(self)))",
+    "time-ordered": "all(result._t_bmjd[r] <= result._t_bmjd[r + 1] for r in range(len(self) - 1))",
+    "units-kept": "result.rv.unit is self.rv.unit and result.rv_err.unit is self.rv_err.unit",
+    "a-covariance-stays-a-covariance": "result._has_cov == self._has_cov",
+}
+copy_contracts = []
+for _kind, _errens in (("1d", "all(result.rv_err.value[r] == self.rv_err.value[result.pi[r]] for r in range(len(self)))"),
+                       ("cov", "all(result.rv_err.value[r, c] == self.rv_err.value[result.pi[r], result.pi[c]] for r in range(len(self)) for c in range(len(self)))")):
+    for _tk, _tens in (("Time", "result._t_ref_bmjd == self._t_ref_bmjd and result.t_ref is self.t_ref"),
+                       ("disabled", "result._t_ref_bmjd == 0 and result.t_ref is None")):
+        copy_contracts.append(Contract(D + "__copy__", PROPERTY, params={"self": built(_kind, _tk)}, cases=[{"_name": f"err={_kind},t_ref={_tk}"}],
+                                       ensures=dict(SAME, **{"uncertainty-paired-as-in-the-source": _errens, "same-reference-epoch": _tens})))
+for _c in copy_contracts:
+    _c.callees = {D + "t": t_prop, "RVData.t": t_prop, "thejoker.data.RVData": ctor_full, "thejoker.data.RVData.__init__": ctor_full}
+CONTRACTS += copy_contracts
+
+
+# ---- slicing: data[lo:hi], data[index array], data[mask] ------------------------------------------------------------------------------------
+def slice_param(ex, path, name):
+    from jvc.values import SliceV
+    lo, hi = z3.Int("slc_lo"), z3.Int("slc_hi")
+    n = z3.Int("n_obs")
+    path.assume(0 <= lo, lo <= hi, hi <= n)
+    return SliceV(lo, hi, None)
+
+
+def idx_param(ex, path, name):
+    m = z3.Int("n_idx")
+    n = z3.Int("n_obs")
+    a = fresh_arr("slc_idx", 1, "int", [m])
+    k = z3.Int(fresh_name("k"))
+    path.assume(m >= 0, q_forall([k], b_and(0 <= k, k < m), b_and(0 <= a.at(k), a.at(k) < n), pats=[a.at(k)]))
+    return a
+
+
+GI_DEFS = {
+    # the selected source row behind output row r: the sorting bijection of the constructor composed with the selection
+    "sel": (["j"], "slc_lo_() + j" ),
+}
+
+
+@model("slc_lo_")
+def _slc_lo(ex, path, args, kwargs, node, fn):
+    return z3.Int("slc_lo")
+
+
+LIB["slc_lo_"] = _slc_lo
+
+getitem_contracts = []
+for _kind in ("1d", "cov"):
+    _err_s = ("all(result.rv_err.value[r] == self.rv_err.value[slc_lo_() + result.pi[r]] for r in range(len(result)))" if _kind == "1d" else
+              "all(result.rv_err.value[r, c] == self.rv_err.value[slc_lo_() + result.pi[r], slc_lo_() + result.pi[c]] for r in range(len(result)) for c in range(len(result)))")
+    getitem_contracts.append(Contract(
+        D + "__getitem__", PROPERTY, params={"self": built(_kind, "Time"), "slc": slice_param}, cases=[{"_name": f"slice,err={_kind}"}],
+        ensures={"the-selected-rows": "len(result) == slc.stop - slc.start and all(0 <= result.pi[r] and result.pi[r] < len(result) and "
+                                      "inv_(result.pi, result.pi[r]) == r for r in range(len(result)))",
+                 "time-velocity-paired-as-in-the-source": "all(result._t_bmjd[r] == self._t_bmjd[slc_lo_() + result.pi[r]] and "
+                                                          "result.rv.value[r] == self.rv.value[slc_lo_() + result.pi[r]] for r in range(len(result)))",
+                 "uncertainty-paired-as-in-the-source": _err_s,
+                 "units-kept": "result.rv.unit is self.rv.unit and result.rv_err.unit is self.rv_err.unit",
+                 "a-covariance-stays-a-covariance": "result._has_cov == self._has_cov"}))
+    _err_i = ("all(result.rv_err.value[r] == self.rv_err.value[slc[result.pi[r]]] for r in range(len(result)))" if _kind == "1d" else
+              "all(result.rv_err.value[r, c] == self.rv_err.value[slc[result.pi[r]], slc[result.pi[c]]] for r in range(len(result)) for c in range(len(result)))")
+    getitem_contracts.append(Contract(
+        D + "__getitem__", PROPERTY, params={"self": built(_kind, "Time"), "slc": idx_param}, cases=[{"_name": f"index-array,err={_kind}"}],
+        ensures={"the-selected-rows": "len(result) == len(slc) and all(0 <= result.pi[r] and result.pi[r] < len(result) and "
+                                      "inv_(result.pi, result.pi[r]) == r for r in range(len(result)))",
+                 "time-velocity-paired-as-in-the-source": "all(result._t_bmjd[r] == self._t_bmjd[slc[result.pi[r]]] and "
+                                                          "result.rv.value[r] == self.rv.value[slc[result.pi[r]]] for r in range(len(result)))",
+                 "uncertainty-paired-as-in-the-source": _err_i,
+                 "units-kept": "result.rv.unit is self.rv.unit and result.rv_err.unit is self.rv_err.unit",
+                 "a-covariance-stays-a-covariance": "result._has_cov == self._has_cov"}))
+for _c in getitem_contracts:
+    _c.callees = {D + "t": t_prop, "RVData.t": t_prop, "thejoker.data.RVData": ctor_full, "thejoker.data.RVData.__init__": ctor_full}
+CONTRACTS += getitem_contracts
